@@ -10,6 +10,12 @@ from .. import runcommon as rc
 
 def _model(spec):
     rng = np.random.Generator(np.random.PCG64(spec["model_seed"]))
+    if spec.get("builtin") == "shin-metiu":
+        # the built-in model on AdiabaticModel_ (truncated auxiliary problem): LAPACK's native eigenvector signs change along
+        # the path, the states handed from step to step must not
+        import mudslide
+        m = mudslide.models.scattering_models["shin-metiu"](nstates=spec["N"], **spec.get("kwargs", {}))
+        return m, random_rho(rng, spec["N"], "pure"), rng
     m = SynthModel(rng, spec["N"], spec["n"], scale=0.03, gap=0.02, quad=0.004, mass=10 ** rng.uniform(2.5, 3.5, size=spec["n"]),
                    representation=spec.get("representation", "adiabatic"))
     rho0 = random_rho(rng, spec["N"], "pure")
@@ -119,6 +125,26 @@ def oracle_order(args):
         out[name] = {"differences": e, "ratios": ratios, "ratio": ratios[-1]}
         if e[1] > 1e-8 * sc and ratios[0] < 3.0 and ratios[1] < 3.0:
             bad.append("%s: ratios %.2f, %.2f" % (name, ratios[0], ratios[1]))
+    if not bad and spec.get("cross", True):
+        # "converge to the EXACT solution": a scheme can converge at second order to something else. The two electronic
+        # integrators discretise the same equation, so at the finest level they differ by no more than their own errors, which
+        # the last Richardson differences estimate (error ~ difference / 3); judged only when both look asymptotic
+        other = "linear-rk4" if spec.get("integ", "exp") == "exp" else "exp"
+        ro = []
+        for k in (2, 3):
+            t = _traj(spec, spec["dt"] / 2 ** k, spec["steps"] * 2 ** k, x0=x_shared, p0=p_shared, rho0=rho_shared, integ=other)
+            t.simulate()
+            ro.append(np.array(t.rho))
+        est_this = float(np.max(np.abs(res[2][2] - res[3][2])))
+        est_other = float(np.max(np.abs(ro[0] - ro[1])))
+        cross = float(np.max(np.abs(res[3][2] - ro[1])))
+        out["cross"] = {"difference_between_integrators": cross, "own_estimates": [est_this, est_other]}
+        asym = all(2.5 <= r <= 6.0 for r in out["rho"]["ratios"]) or out["rho"]["differences"][1] <= 1e-8
+        if asym and cross > 5.0 * (est_this + est_other) + 1e-9:
+            bad.append("rho: the two electronic integrators differ by %.3g at dt/8 while their own step-halving differences are %.3g and %.3g"
+                       % (cross, est_this, est_other))
+            return False, out, {"ratio": "about 4 (>= 3)", "cross": "<= 5 x (own estimates)"}, \
+                "second-order convergence, but not to the solution the other integrator converges to: " + bad[0]
     return not bad, out, {"ratio": "about 4 (>= 3)"}, "error does not shrink fourfold when dt is halved: " + ", ".join(bad)
 
 
@@ -201,12 +227,15 @@ def run(ctx):
             if not spec["md"] and obs.get("rho_error", 0) > 1e-9 and obs.get("x_error", 1) <= 1e-9:
                 sig = "last-velocity-alias"
             ctx.oracle_fail(sig, "reverse", spec, obs, req, text)
-    for i in range(ctx.budget(8, 60)):
+    for i in range(ctx.budget(9, 62)):
         N, n = int(rng.integers(2, 4)), int(rng.integers(1, 3))
         spec = dict(N=N, n=n, model_seed=int(rng.integers(1, 10 ** 6)), x0=list(rng.normal(size=n) * 0.5), p0=list(rng.normal(size=n) * 10 + 5),
                     state=int(rng.integers(0, N)), dt=4.0, steps=16, integ=["exp", "linear-rk4"][i % 2], max_edt=0.5)
         if (i // 2) % 2 == 1:
             spec["representation"] = "diabatic"
+        if i % 31 == 8:
+            spec = dict(builtin="shin-metiu", N=3, n=1, model_seed=int(rng.integers(1, 10 ** 6)), x0=[float(rng.uniform(-6.8, -6.4))],
+                        p0=[float(rng.uniform(12.0, 16.0))], state=0, dt=4.0, steps=30, integ=["exp", "linear-rk4"][(i // 31) % 2], max_edt=0.5)
         ok, obs, req, text = oracle_order(spec)
         ctx.case(("order", spec["integ"], N, n, spec.get("representation", "adiabatic")))
         ctx.count("richardson_triples")
